@@ -22,8 +22,23 @@ from kmip.core import enums
 def parse_policy(policy):
     result = {}
 
+    if not isinstance(policy, dict):
+        raise ValueError(
+            "A policy must map object types to operation policies, "
+            "received: {0}".format(policy)
+        )
+
     for object_type, operation_policies in six.iteritems(policy):
         processed_operation_policies = {}
+
+        if not isinstance(operation_policies, dict):
+            raise ValueError(
+                "The policy for object type '{0}' must map operations to "
+                "permissions, received: {1}".format(
+                    object_type,
+                    operation_policies
+                )
+            )
 
         for operation, permission in six.iteritems(operation_policies):
             try:
@@ -75,7 +90,17 @@ def read_policy_from_file(path):
     object_types = set([t.name for t in enums.ObjectType])
     result = {}
 
+    if not isinstance(policy_blob, dict):
+        raise ValueError(
+            "The policy file '{}' must contain a JSON object mapping policy "
+            "names to policies.".format(path)
+        )
+
     for name, object_policy in policy_blob.items():
+        if not isinstance(object_policy, dict):
+            raise ValueError(
+                "Policy '{}' must be a JSON object.".format(name)
+            )
         if len(object_policy.keys()) == 0:
             continue
 
@@ -90,6 +115,11 @@ def read_policy_from_file(path):
 
             group_policies = object_policy.get('groups')
             if group_policies:
+                if not isinstance(group_policies, dict):
+                    raise ValueError(
+                        "The 'groups' section of policy '{}' must map group "
+                        "names to policies.".format(name)
+                    )
                 parsed_group_policies = dict()
                 for group_name, group_policy in six.iteritems(group_policies):
                     parsed_group_policies[group_name] = parse_policy(
@@ -103,6 +133,11 @@ def read_policy_from_file(path):
             result[name] = {'preset': policy}
         else:
             invalid_sections = sections - policy_sections - object_types
+            if len(invalid_sections) == 0:
+                raise ValueError(
+                    "Policy '{}' mixes policy sections with object "
+                    "types.".format(name)
+                )
             raise ValueError(
                 "Policy '{}' contains an invalid section named: "
                 "{}".format(name, invalid_sections.pop())
